@@ -3,3 +3,4 @@ import EsbuildModel.Props.C18
 import EsbuildModel.Props.C19
 import EsbuildModel.Props.C03
 import EsbuildModel.Props.C14
+import EsbuildModel.Props.C02
